@@ -756,6 +756,17 @@ def run(ctx):
         sc = mk_script("bwe", rng.choice([1, 4]), pc, "rfc8888", steps)
         sc["loopback"] = True
         rs.append(sc)
+    # a busy rate consumer: the change callback does not return while feedback is being fed; compound feedback (this report
+    # followed by the previous one again) keeps WriteRTCP feeding after the report that changes the rate
+    for pc in ("rec", "noop", "leaky"):
+        for fbk in FBS:
+            for _ in range(2 if quick else 10):
+                sc = random_script(rng, "bwe", rounds, pacer=pc, fb=fbk)
+                sc["cbwait"] = True
+                for st in sc["steps"]:
+                    if st["a"] == "fb" and rng.random() < 0.6:
+                        st["pair"] = True
+                rs.append(sc)
     if quick:   # a few loss scripts also in the quick tier (about 1.2 s each, run in parallel with the others)
         rs += [loss_script(rng, c, rng.choice(PACERS[:3]), f) for c in (1, 3, 0, 4, 5) for f in FBS]
     run_batch(ctx, rs, "T-random", par=16)
